@@ -204,6 +204,12 @@ func (a *APU) Write(addr uint16, v uint8) {
 			} else if c.Len == maxLen(ch) && en && firstHalf {
 				c.Unspec = true // counter at its maximum without having been reloaded: clocked or not is not fixed
 			}
+			if ch == 2 && (c.On || c.Unspec) {
+				// re-triggering channel 3 while it plays may rewrite the first bytes of wave RAM (DMG quirk: outside the statements)
+				for i := 0; i < 4; i++ {
+					a.WaveUnk[i] = true
+				}
+			}
 			c.On = c.Dac
 			if ch == 0 {
 				period, shift := int(a.Reg[0]>>4)&7, a.Reg[0]&7
